@@ -11,7 +11,14 @@
  * argv[1] = base directory; script number k runs in <base>/s<k> (OVNI_TRACEDIR)
  * env RT_TMPDIR=1: additionally use <base>/s<k>.tmp as OVNI_TMPDIR
  * env RT_FAULT="<kind>:<n>:<what>": fail the n-th intercepted call of a kind
+ *     (kind "any" counts all calls); what = ENOSPC | EIO | EACCES | short.
+ *     A failed fclose discards the stdio buffer (the flush failed); a failed
+ *     close truncates the file to its size before the last write on that
+ *     descriptor (a deferred write error reported at close).
  * env RT_KILL=<n>: _exit(77) before the n-th intercepted I/O call
+ * env RT_READDIR=<spec>: readdir order inside the script, one character per
+ *     entry: '.' = ".", ':' = "..", 'o' = stream.obs, 'j' = stream.json
+ *     (entries not named follow in native order)
  * stdout per script: "returned" | "die@<op index>" | "killed@<op index>"
  *        followed by " calls=<n>" and, with RT_LOG=1, the I/O call log.
  */
@@ -23,6 +30,7 @@
 #include <signal.h>
 #include <stdarg.h>
 #include <stdio.h>
+#include <stdio_ext.h>
 #include <stdlib.h>
 #include <string.h>
 #include <sys/mman.h>
@@ -62,14 +70,15 @@ static long kill_at = -1;
 static char fault_kind[32];
 static long fault_n = -1;
 static char fault_what[32];
-static long kind_count[16];
+static long kind_count[32];
+static const char *readdir_spec = NULL;
 static int log_on = 0;
 static char base_dir[4096];
 
 enum { K_MKDIR, K_OPEN, K_WRITE, K_CLOSE, K_FOPEN, K_FWRITE, K_FCLOSE, K_REMOVE, K_RMDIR,
-       K_OPENDIR, K_FREAD, K_STAT, K_MAX };
+       K_OPENDIR, K_FREAD, K_STAT, K_FPUTS, K_READDIR, K_CLOSEDIR, K_MAX };
 static const char *kind_name[K_MAX] = { "mkdir", "open", "write", "close", "fopen", "fwrite",
-	"fclose", "remove", "rmdir", "opendir", "fread", "stat" };
+	"fclose", "remove", "rmdir", "opendir", "fread", "stat", "fputs", "readdir", "closedir" };
 
 static void logf_(const char *fmt, ...)
 {
@@ -99,7 +108,9 @@ static int gate(int kind)
 	if (kill_at >= 0 && sh->ncalls == kill_at)
 		_exit(77);
 	kind_count[kind]++;
-	if (fault_n >= 0 && strcmp(fault_kind, kind_name[kind]) == 0 && kind_count[kind] == fault_n) {
+	int hit = fault_n >= 0 && ((strcmp(fault_kind, kind_name[kind]) == 0 && kind_count[kind] == fault_n)
+			|| (strcmp(fault_kind, "any") == 0 && sh->ncalls == fault_n));
+	if (hit) {
 		sh->nfault++;
 		if (strcmp(fault_what, "short") == 0) return -2;
 		if (strcmp(fault_what, "ENOSPC") == 0) return ENOSPC;
@@ -133,7 +144,8 @@ int open(const char *path, int flags, ...)
 	return real_open(path, flags, mode);
 }
 
-static int stream_fd = -1;
+static int last_write_fd = -1;
+static off_t last_write_off = 0;
 
 ssize_t write(int fd, const void *buf, size_t n)
 {
@@ -142,6 +154,8 @@ ssize_t write(int fd, const void *buf, size_t n)
 	int g = gate(K_WRITE);
 	logf_("write %zu|", n);
 	if (g > 0) { errno = g; return -1; }
+	last_write_fd = fd;
+	last_write_off = lseek(fd, 0, SEEK_CUR);
 	if (g == -2 && n > 1) return real_write(fd, buf, n / 2);
 	return real_write(fd, buf, n);
 }
@@ -152,7 +166,11 @@ int close(int fd)
 	if (!in_script || fd <= 2) return real_close(fd);
 	int g = gate(K_CLOSE);
 	logf_("close|");
-	if (g > 0) { real_close(fd); errno = g; return -1; }
+	if (g > 0) {
+		/* deferred write error: the last write did not reach the file */
+		if (fd == last_write_fd && ftruncate(fd, last_write_off) != 0) { }
+		real_close(fd); errno = g; return -1;
+	}
 	return real_close(fd);
 }
 
@@ -184,8 +202,42 @@ int fclose(FILE *f)
 	if (!in_script || f == stdout || f == stderr) return real_fclose(f);
 	int g = gate(K_FCLOSE);
 	logf_("fclose|");
-	if (g > 0) { real_fclose(f); errno = g; return EOF; }
+	if (g > 0) { __fpurge(f); real_fclose(f); errno = g; return EOF; }
 	return real_fclose(f);
+}
+
+int fputs(const char *str, FILE *f)
+{
+	REAL(fputs);
+	REAL(fwrite);
+	if (!in_script || f == stdout || f == stderr) return real_fputs(str, f);
+	int g = gate(K_FPUTS);
+	size_t n = strlen(str);
+	logf_("fputs %zu|", n);
+	if (g > 0) { errno = g; return EOF; }
+	if (g == -2) { real_fwrite(str, 1, n / 2, f); errno = ENOSPC; return EOF; }
+	return real_fputs(str, f);
+}
+
+size_t fread(void *p, size_t sz, size_t n, FILE *f)
+{
+	REAL(fread);
+	if (!in_script || f == stdin) return real_fread(p, sz, n, f);
+	int g = gate(K_FREAD);
+	if (g > 0) { logf_("fread 0|"); f->_flags |= 0x20 /* _IO_ERR_SEEN: ferror(f) */; errno = g; return 0; }
+	size_t r = real_fread(p, sz, n, f);
+	logf_("fread %zu|", r * sz);
+	return r;
+}
+
+int stat(const char *path, struct stat *st)
+{
+	REAL(stat);
+	if (!in_script) return real_stat(path, st);
+	int g = gate(K_STAT);
+	logf_("stat %s|", relp(path));
+	if (g > 0) { errno = g; return -1; }
+	return real_stat(path, st);
 }
 
 int remove(const char *path)
@@ -216,6 +268,62 @@ DIR *opendir(const char *path)
 	logf_("opendir %s|", relp(path));
 	if (g > 0) { errno = g; return NULL; }
 	return real_opendir(path);
+}
+
+/* readdir with a controlled order: all entries are read on the first call */
+static DIR *rd_dir = NULL;
+static struct dirent rd_ent[64];
+static int rd_n = 0, rd_pos = 0;
+
+static const char *spec_name(char c)
+{
+	switch (c) {
+	case '.': return ".";
+	case ':': return "..";
+	case 'o': return "stream.obs";
+	case 'j': return "stream.json";
+	}
+	return "";
+}
+
+struct dirent *readdir(DIR *d)
+{
+	REAL(readdir);
+	if (!in_script) return real_readdir(d);
+	int g = gate(K_READDIR);
+	if (g > 0) { logf_("readdir -|"); errno = g; return NULL; }
+	struct dirent *e;
+	if (readdir_spec == NULL) {
+		e = real_readdir(d);
+	} else {
+		if (rd_dir != d) {
+			struct dirent tmp[64];
+			int n = 0, used[64] = { 0 };
+			while (n < 64 && (e = real_readdir(d)) != NULL) tmp[n++] = *e;
+			rd_n = 0;
+			for (const char *c = readdir_spec; *c; c++)
+				for (int i = 0; i < n; i++)
+					if (!used[i] && strcmp(tmp[i].d_name, spec_name(*c)) == 0) { used[i] = 1; rd_ent[rd_n++] = tmp[i]; }
+			for (int i = 0; i < n; i++)
+				if (!used[i]) rd_ent[rd_n++] = tmp[i];
+			rd_dir = d;
+			rd_pos = 0;
+		}
+		e = rd_pos < rd_n ? &rd_ent[rd_pos++] : NULL;
+	}
+	logf_("readdir %s|", e ? e->d_name : "-");
+	return e;
+}
+
+int closedir(DIR *d)
+{
+	REAL(closedir);
+	if (!in_script) return real_closedir(d);
+	int g = gate(K_CLOSEDIR);
+	logf_("closedir|");
+	if (d == rd_dir) rd_dir = NULL;
+	if (g > 0) { real_closedir(d); errno = g; return -1; }
+	return real_closedir(d);
 }
 
 /* ---------------- script execution ---------------- */
@@ -323,6 +431,7 @@ int main(int argc, char **argv)
 	const char *e;
 	if ((e = getenv("RT_KILL"))) kill_at = atol(e);
 	if ((e = getenv("RT_LOG"))) log_on = atoi(e);
+	if ((e = getenv("RT_READDIR")) && strcmp(e, "native") != 0) readdir_spec = e;
 	if ((e = getenv("RT_FAULT"))) {
 		char tmp[128];
 		snprintf(tmp, sizeof(tmp), "%s", e);
